@@ -253,6 +253,7 @@ func caseFault(res *caseResult, idx int, dir string, seed int64, tier string) {
 	names := len(o.byName)
 	o.mu.Unlock()
 	o.count("distinct_names_observed", names)
+	res.Evals = res.Counters["names_looked_up_on_the_running_node"] + res.Counters["names_looked_up_after_reopen"]
 	res.Sample = map[string]interface{}{"kind": "fault", "config": res.Config, "names": names, "faults_fired": fired}
 }
 
@@ -372,5 +373,6 @@ func caseLimits(res *caseResult, idx int, dir string, seed int64, tier string) {
 	if res.Counters["limits.requests_refused"] > 0 {
 		res.Nontrivial = append(res.Nontrivial, fmt.Sprintf("limits%d", idx))
 	}
+	res.Evals = res.Counters["limits.ids_returned"] + res.Counters["limits.requests_refused"]
 	res.Sample = map[string]interface{}{"kind": "limits", "config": res.Config}
 }
